@@ -600,6 +600,29 @@ def c09m(ctx):
         ctx.fail(o, "(program)", "anchor missing: WideColumnCache::insert / ::remove / ::get with its single-flight (%d writers, %d loader)" % (len(ws), len(g)))
         return
     bad = [b for b in ws if not ctx.touch(b).calls_to(r"single_flight::SingleFlight::<K>::[a-z_]+$")]
+    if not bad:
+        # the repaired protocol (D20) in full: (1) writers mark the flight AFTER their write into the cache; (2) the loader looks
+        # into the cache again inside its flight, before it reads the store; (3) the fill is published under the flight's mark
+        for b in ws:
+            wr = b.calls_to(r"tiny_lfu::TinyLFU::<K, V, L>::entry$")
+            inv = b.calls_to(r"single_flight::SingleFlight::<K>::[a-z_]+$")
+            o.sites += len(wr) + len(inv)
+            if not wr or not all(any(b.site_dominates(w_, i_) for w_ in wr) for i_ in inv):
+                ctx.fail(o, inv[0], "%s marks the key's in-flight load BEFORE writing into the cache: a load that registers in between misses both the mark and the entry" % b.name)
+        work = [x for x in prog.find(r"^WideColumnCache::get::\{closure#0\}::\{closure#\d+\}$") if x.calls_to(r"core::ops::function::Fn::call$|FnOnce::call_once$")]
+        if len(work) != 1:
+            ctx.fail(o, Site(g[0], 0, 0), "anchor missing: the single-flight work closure of WideColumnCache::get (found %d)" % len(work))
+        else:
+            w = ctx.touch(work[0])
+            init = w.calls_to(r"core::ops::function::Fn::call$|FnOnce::call_once$")
+            look = w.calls_to(r"tiny_lfu::TinyLFU::<K, V, L>::(entry|get|get_map)$")
+            pub = w.calls_to(r"single_flight::Flight::publish$")
+            o.sites += len(init) + len(look) + len(pub)
+            if not any(w.site_dominates(l_, init[0]) for l_ in look):
+                ctx.fail(o, init[0], "WideColumnCache::get reads the store without having looked into the cache again inside its flight: a write made before the flight was registered "
+                         "cannot mark it, and is missed when it is committed and evicted before the fill")
+            if not pub or not all(w.site_dominates(init[0], p_) for p_ in pub):
+                ctx.fail(o, init[0], "WideColumnCache::get does not publish its fill through the flight's mark (Flight::publish after the store read)")
     if bad:
         ctx.fail(o, Site(bad[0], 0, 0), "WideColumnCache::%s never tell a load of the same key that is in flight that it is outdated: a write that is committed, un-pinned and evicted while the "
                  "loader sits between its store read and its fill is followed by the loader installing the older value (pin 0), and reads keep returning it" %
